@@ -9,10 +9,13 @@ import Dashu.Model.Float.Round
 
   `Rounded α := α × Option Rounding`  (`none` = `Exact`, `some r` = `Inexact(_, r)`).
 
-  Functions whose current source is defective take `(fixed : Bool)`: `false` mirrors the code as it
-  is, `true` mirrors the one-line repair proposed in `/verif/proposed_fixes`.  The driver prints the
-  `fixed := true` result (what the property requires); see `Props/C03.lean`, `Props/C10.lean` for
-  the `…_partial` theorems about the code as it is and the counterexamples.
+  `Context::mul/sqr/cubic` take `(fixed : Bool)`: `false` mirrors the code as it is (operands longer
+  than 2p / 3p digits are pre-shrunk — a recorded finding), `true` is the behaviour the contract
+  requires (no pre-shrink, `proposed_fixes/float-mul-preshrink.diff`, not applied: design decision).
+  The driver prints the `fixed := true` result; see `Props/C03.lean` for the `…_partial` theorem about
+  the code as it is and the counterexample.  (sqrt, the far-apart addition branch, `sub` from zero and
+  `split_at_point_internal` are modelled as repaired in /repo by the `fix:` commits 92fc29e, 0d97e26,
+  d197d6e, f9ab1b6.)
 
   Estimate oracles: `dub : Int → Nat` models `Repr::digits_ub` on the significand (hypothesis
   `DubSound`: never below the exact digit count, `0` for `0`), `dlb` models `digits_lb`.
@@ -151,20 +154,16 @@ def andThenFlag (e1 e2 : Option Rounding) : Option Rounding :=
   | some e => some e
   | none => e1
 
-/-- `Context::sqrt`.
-    `fixed = false`: the code as it is — scaling `shift = 2p − (digits&1) + (exp&1) − digits`, and
-    `Exact` whenever the integer remainder is zero.
-    `fixed = true`: scaling `shift = 2p − digits − ((exp − digits)&1)` (root has exactly `p` digits, no
-    second rounding) and `Exact` only if the discarded low digits are zero as well. -/
-def ctxSqrt (fixed : Bool) (B : Nat) (m : Mode) (c : Coarse) (p : Nat) (x : FRepr) :
+/-- `Context::sqrt`: the significand is scaled by `shift = 2p − digits − ((exp − digits)&1)` so that the
+    exponent is even and the root has exactly `p` digits; `Exact` only if the integer remainder and
+    the discarded low digits are zero. -/
+def ctxSqrt (B : Nat) (m : Mode) (c : Coarse) (p : Nat) (x : FRepr) :
     Except FPanic (Rounded FRepr) :=
   if p = 0 then .error .unlimitedPrecision
   else if x.signif < 0 then .error .rootNegative
   else
     let digits : Int := x.digits B
-    let shift : Int :=
-      if fixed then (p : Int) * 2 - digits - ((x.exp - digits) % 2)
-      else (p : Int) * 2 - (digits % 2) + (x.exp % 2) - digits
+    let shift : Int := (p : Int) * 2 - digits - ((x.exp - digits) % 2)
     let (signif, low, lowDigits) : Int × Int × Nat :=
       if shift > 0 then (x.signif * ((B ^ shift.toNat : Nat) : Int), 0, 0)
       else
@@ -175,7 +174,7 @@ def ctxSqrt (fixed : Bool) (B : Nat) (m : Mode) (c : Coarse) (p : Nat) (x : FRep
     let rem : Int := signif.natAbs - root * root
     let exp := Int.tdiv (x.exp - shift) 2
     let res : Rounded Int :=
-      if rem = 0 ∧ (¬ fixed ∨ low = 0) then (root, none)
+      if rem = 0 ∧ low = 0 then (root, none)
       else
         let test := (compare rem root).then (compare (low * 4) ((B ^ lowDigits : Nat) : Int))
         let adj := roundLowPart m root .Positive test
@@ -216,10 +215,10 @@ def reprRoundSum (B : Nat) (m : Mode) (c : Coarse) (p : Nat)
     `rs = ±1` is `rhs_sign`.  `repr_add_small_large` is the same text with the operands swapped (the
     sign is applied to the other operand), so it is modelled by this function with
     `lhs := rs·rhs`, `rhs := lhs`, `rs := 1` — see `ctxAddSub`.
-    `fixed` selects the sticky stand-in of the far-apart branch: the code uses
-    `low_prec = (rnd_precision − ldigits) + 1`, which leaves the stand-in `±1` with ONE digit after
-    `repr_round_sum` has padded the significand — an exact tie in base 2; the repair uses `+ 2`. -/
-def reprAddLargeSmall (fixed : Bool) (B : Nat) (m : Mode) (c : Coarse) (dub : Int → Nat) (p : Nat)
+    In the far-apart branch the small operand is replaced by the sticky stand-in `±1` at
+    `low_prec = (rnd_precision − ldigits) + 2` digits (two digits stay below the rounding position
+    after `repr_round_sum` has padded the significand, so the stand-in is `< 1/2` in every base). -/
+def reprAddLargeSmall (B : Nat) (m : Mode) (c : Coarse) (dub : Int → Nat) (p : Nat)
     (lhs rhs : FRepr) (rs : Int) : Rounded FRepr :=
   let isSub := decide (sgn lhs.signif ≠ rs * sgn rhs.signif)
   let rndP := p + (if isSub then 1 else 0)
@@ -227,7 +226,7 @@ def reprAddLargeSmall (fixed : Bool) (B : Nat) (m : Mode) (c : Coarse) (dub : In
   let ldigits := lhs.digits B
   let rest := dub rhs.signif
   if p ≠ 0 ∧ rest + 1 < ediff ∧ rest + 1 + rndP < ldigits + ediff then
-    let lowPrec := if ldigits ≥ rndP then 2 else (rndP - ldigits) + (if fixed then 2 else 1)
+    let lowPrec := if ldigits ≥ rndP then 2 else (rndP - ldigits) + 2
     reprRoundSum B m c p lhs.signif lhs.exp (rs * sgn rhs.signif, lowPrec) isSub
   else if p ≠ 0 ∧ ldigits ≥ p then
     let hl := splitDigits B rhs.signif ediff
@@ -241,20 +240,17 @@ def reprAddLargeSmall (fixed : Bool) (B : Nat) (m : Mode) (c : Coarse) (dub : In
   else
     reprRoundSum B m c p (lhs.signif * ((B ^ ediff : Nat) : Int) + rs * rhs.signif) rhs.exp (0, 0) isSub
 
-/-- `Context::add` (`rs = 1`) / `Context::sub` (`rs = -1`).
-    `fixed = false` mirrors `sub` with a zero `lhs` as written: `repr_round_ref(rhs).map(|v| -v)` —
-    the operand is rounded *before* the negation and the flag is not mirrored;
-    `fixed = true` rounds the negated operand. -/
-def ctxAddSub (fixed : Bool) (B : Nat) (m : Mode) (c : Coarse) (dub : Int → Nat) (p : Nat)
+/-- `Context::add` (`rs = 1`) / `Context::sub` (`rs = -1`); `sub` with a zero `lhs` rounds the negated
+    operand. -/
+def ctxAddSub (B : Nat) (m : Mode) (c : Coarse) (dub : Int → Nat) (p : Nat)
     (lhs rhs : FRepr) (rs : Int) : Rounded FRepr :=
   if lhs.isZero then
     if rs = 1 then reprRound B m c p rhs
-    else if fixed then reprRound B m c p rhs.neg
-    else let r := reprRound B m c p rhs; (r.1.neg, r.2)
+    else reprRound B m c p rhs.neg
   else if rhs.isZero then reprRound B m c p lhs
   else if lhs.exp = rhs.exp then
     reprRound B m c p (FRepr.new B (lhs.signif + rs * rhs.signif) lhs.exp)
-  else if lhs.exp > rhs.exp then reprAddLargeSmall fixed B m c dub p lhs rhs rs
-  else reprAddLargeSmall fixed B m c dub p ⟨rs * rhs.signif, rhs.exp⟩ lhs 1
+  else if lhs.exp > rhs.exp then reprAddLargeSmall B m c dub p lhs rhs rs
+  else reprAddLargeSmall B m c dub p ⟨rs * rhs.signif, rhs.exp⟩ lhs 1
 
 end Dashu.Model.Float
